@@ -16,6 +16,7 @@
     finding is repaired in /repo and its entry leaves known_findings, the guard shrinks with it;
     with no entries left the guarded theorem IS the full statement. *)
 From PintV Require Import Model.UC Model.Eval Model.Registry Model.Standards Proofs.StandardsProofs.
+From PintV Require Import Model.Groups Model.Systems Model.StandardsBase Proofs.StandardsBaseProofs.
 From PintV Require Import Gen.DefaultDefs Gen.DefaultReg Gen.Standards.
 Open Scope string_scope.
 
@@ -95,3 +96,40 @@ Example C20_guard_satisfiable :
   ∃ row, row_named standards "inch" = Some row ∧ listed known_deviations row = false
          ∧ row_ok default_reg row = true ∧ s_kind row = KExact.
 Proof. exact guard_satisfiable. Qed.
+
+(** * The same table through the registry's own route to SI: [_get_base_units]
+    ([UnitRegistry.get_base_units], [Quantity.to_base_units]) under the default system the
+    definition file declares.  The registry does the gram → kilogram bookkeeping itself here, so
+    the factor must be the row's SI factor as written in the table (farad = 1, K_cd = 683, G =
+    6.67430e-11 …), with the coherent SI unit of the row's dimension. *)
+(** what a passed exact row says, for every registry, system and row *)
+Theorem C20_base_row_ok_sound r sy row :
+  s_basis row = BSI → s_kind row = KExact → base_row_ok r sy row = true →
+  ∃ dest, base_units_in r sy {[ s_name row := 1%Qc ]} = Ok (Some (s_factor row), true, dest)
+          ∧ (∀ d u, In (d, u) si_units → exp_of dest u = dim_exp (s_dims row) d)
+          ∧ (∀ k v, dest !! k = Some v → In k (map snd si_units) ∨ dimless r k = true).
+Proof. exact (base_row_ok_exact r sy row). Qed.
+(** the default system of the bundled file replaces gram by kilogram and nothing else *)
+Theorem C20_default_system_is_mks :
+  match default_system with
+  | Some sy => forallb (λ kv : string * uc,
+                 uc_eqb kv.2 {[ (if String.eqb kv.1 "gram" then "kilogram" else kv.1) := 1%Qc ]})
+                 (map_to_list (s_base sy)) && bool_decide (is_Some (s_base sy !! "gram"))
+  | None => false
+  end = true.
+Proof. exact default_system_is_mks. Qed.
+(** every unlisted row of the table, asked through base units (finite: the bound is the table) *)
+Theorem C20_defaults_base_units_match_standards_guarded :
+  base_rows_ok_except known_deviations default_reg default_system standards = true.
+Proof. exact defaults_base_units_match_standards. Qed.
+Theorem C20_defaults_base_units_match_standards_guarded_forall :
+  ∃ sy, default_system = Some sy ∧
+        ∀ row, In row standards → listed known_deviations row = false → base_row_ok default_reg sy row = true.
+Proof. exact defaults_base_units_match_standards_forall. Qed.
+(** a row with mass to the power -1 spelled out: 1 farad = 1 × A² s⁴ kg⁻¹ m⁻² *)
+Example C20_farad_base_units :
+  ∃ sy dest, default_system = Some sy ∧
+    base_units_in default_reg sy {[ "farad" := 1%Qc ]} = Ok (Some 1%Qc, true, dest) ∧
+    exp_of dest "kilogram" = mkq (-1) 1 ∧ exp_of dest "meter" = mkq (-2) 1 ∧
+    exp_of dest "second" = mkq 4 1 ∧ exp_of dest "ampere" = mkq 2 1.
+Proof. exact farad_base_units. Qed.
